@@ -52,10 +52,16 @@ def run(rep, tier):
     from harness import C08_mixin as HM
 
     parts = xh.write_module("hC08_parts", HM.parts_source())
+    from harness import C08_order as HO
+
+    oparts = xh.write_module("hC08_order", HO.parts_source())
     targets = [f"{parts}.check_mixin_p{i}" for i in range(8)] + ["harness.C08_mixin.twin_all_sites_on"]
+    targets += [f"{oparts}.check_order_{a}{b}" for a in range(3) for b in range(3)] + ["harness.C08_order.twin_nested_and_top"]
     xres = xh.run_targets(targets, timeout=600 if tier == "quick" else 1800)
     xh.fold(rep, parts, [r for r in xres if r.target.startswith(parts)])
-    xh.fold(rep, "harness.C08_mixin", [r for r in xres if not r.target.startswith(parts)])
+    xh.fold(rep, oparts, [r for r in xres if r.target.startswith(oparts)])
+    xh.fold(rep, "harness.C08_mixin", [r for r in xres if r.target.startswith("harness.C08_mixin")])
+    xh.fold(rep, "harness.C08_order", [r for r in xres if r.target.startswith("harness.C08_order")])
     rep.coverage["mixin_placement_subsets"] = 2 ** HM.NS
     rep.coverage["mixin_harness_results"] = [{"target": r.target.rsplit(".", 1)[-1], "status": r.status, "wall_s": round(r.wall, 1)} for r in xres]
     rep.coverage.update({
@@ -65,7 +71,8 @@ def run(rep, tier):
         "explanation": "per qualifying spread site: z3 unsat of (Conf & live & selected-class-not-subclass) and of (Conf & live & !Acc_F(sub-payload)); plus import of every emitted package",
     })
     rep.assume("qualifying spread = direct child of the selection set, no @skip/@include, fragment type == selection type, fragment without inline fragments",
-               "@mixin: every subset of 7 placement sites (plain field, field spreading a fragment, nested in an inline fragment, fragment definition, fragment spreading a fragment, two mixins, list field) x definition order is explored by CrossHair (harness/C08_mixin.py); symbolic set-iteration orders of the fragment sort are covered by C10")
+               "@mixin: every subset of 7 placement sites (plain field, field spreading a fragment, nested in an inline fragment, fragment definition, fragment spreading a fragment, two mixins, list field) x definition order is explored by CrossHair (harness/C08_mixin.py); symbolic set-iteration orders of the fragment sort are covered by C10",
+               "ordering kernel: every assignment of {no edge, top-level spread, nested spread} to the 6 pairs of 4 fragments (names chosen so that every lexicographic relation occurs) x both definition orders through the real FragmentsGenerator; the emitted module must define bases before use and must exec (harness/C08_order.py)")
 
 
 def replay(data):
